@@ -142,9 +142,12 @@ func (x *Exec) recFunc(env *Env, sf *SpecFunc) *recFuncInfo {
 	x.recFuncs[sf.Name] = ri
 	x.recOrder = append(x.recOrder, sf.Name)
 	tenv := &Env{x: x, pkg: env.pkg}
+	if p := x.v.typesPkg(sf.PkgPath); p != nil {
+		tenv.pkg = p
+	}
 	ri.rtype = tenv.resolveType(sf.Result)
 	ri.sort = x.ti.SortOf(ri.rtype)
-	benv := &Env{x: x, heap: map[string]*Term{}, st: &State{heap: map[string]*Term{}}, bound: map[string]TV{}, pkg: env.pkg}
+	benv := &Env{x: x, heap: map[string]*Term{}, st: &State{heap: map[string]*Term{}}, bound: map[string]TV{}, pkg: tenv.pkg}
 	var params []string
 	for i, p := range sf.Params {
 		pt := tenv.resolveType(p.Type)
